@@ -29,7 +29,7 @@ TRUSTED_BASE = [
     "CPython 3.12 executes the real code objects (control flow, object model, exceptions are not modelled)",
     "pyvc value models of bitarray / numpy / int / bytes / enum (validated differentially against the real libraries and by the native cross-check on every run)",
     "pyvc gf2 canonical forms + Gaussian elimination, bit-parallel enumeration, loop cutter, counter-model extraction",
-    "z3 5.1 / cvc5 1.4 where a query reaches them",
+    "z3 5.1 where a query reaches it (word-level arithmetic, integer counters, components beyond the enumeration limit); cvc5 is installed by setup.sh but no query is routed to it",
 ]
 ASSUMPTIONS = [
     "Python integers are mathematical integers (kept exact by the models; no machine arithmetic in the code under contract)",
